@@ -99,6 +99,29 @@ int main(int argc, char** argv) {
         chk("pinv_AX_symmetric", maxdiff(AX, DMat(trans(AX))), 1e-9, "(A X)' != A X");
         chk("pinv_XA_symmetric", maxdiff(XA, DMat(trans(XA))), 1e-9, "(X A)' != X A");
       }
+      // scale law (MatAlgebra.tla: Rank(sA) = Rank(A), pinv(sA) = pinv(A)/s, inv(sA) = inv(A)/s) with exact powers of two
+      if (r >= k) {
+        DMat X0 = pinv(A);
+        const double scales[] = {1048576.0, 8.8817841970012523e-16};          // 2^20, 2^-50
+        for (double sc : scales) {
+          DMat As = A * sc;
+          SVD<double, int, Exc> svd(As);
+          svd.decompose();
+          int rk = 0; for (int q = 1; q <= k; q++) if (!svd.lindep(q)) rk++;
+          chk("scaled_svd_rank", std::abs(rk - rank), 0, "rank of " + std::to_string(sc) + "*A by SVD::lindep is " + std::to_string(rk) + ", exact rank " + std::to_string(rank));
+          DMat Xs = pinv(As);
+          chk("scaled_pinv", maxdiff(DMat(Xs * sc), X0), 1e-9, "pinv(s A) * s != pinv(A) for s = " + std::to_string(sc));
+          // Mat::invert(tol) has a documented absolute pivot threshold (default 1000 eps): matrices are scaled within it
+          const double sci = sc > 1 ? sc : 9.5367431640625e-07;           // 2^20, 2^-20
+          if (sq && det != 0) {
+            As = A * sci;
+            const double sc = sci;
+            DMat Is = inv(As);
+            DMat S(r, r); for (int i = 1; i <= r; i++) for (int j = 1; j <= r; j++) S(i, j) = Is(i, j) * sc * double(det);
+            chk("scaled_inverse", maxdiff(S, ADJ), 1e-8, "inv(s A) * s * det(A) differs from the exact adjugate for s = " + std::to_string(sc));
+          }
+        }
+      }
       // Cholesky of N = A'A + I in the three symmetric storages
       {
         DMat N = At * A; for (int i = 1; i <= k; i++) N(i, i) += 1;
